@@ -19,7 +19,7 @@ META = {
 }
 WALL_BUDGET = {"quick": 480, "thorough": 3 * 3600}
 TEMPLATES = [('R2',), ('R2', 'R3'), ('R19', 'N', 'R2'), ('N', 'R3', 'U2'), ('X2', 'R2'), ('R2', 'X1', 'R19'), ('U0', 'R2', 'R3'), ('R600',), ('Rmax', 'R2'),
-             ('F2', 'R2'), ('R2', 'F2', 'R3'), ('F1', 'R3', 'F1'), ('R3', 'F2'), ('R0', 'R2')]
+             ('F2', 'R2'), ('R2', 'F2', 'R3'), ('F1', 'R3', 'F1'), ('R3', 'F2'), ('R0', 'R2'), ('M11', 'R2'), ('R3', 'M11')]
 
 
 def jobs(tier, seed):
@@ -28,6 +28,7 @@ def jobs(tier, seed):
         out.append(('validate', t, i % 3, 1 + i % 2))
         out.append(('parsed', t, (i + 1) % 3, 1))
     out += [('static', 4072, 4), ('static', 1005, 19), ('static', 1077, 0), ('static', 4072, 600)]
+    out += [('tworeaders', 0), ('tworeaders', 1)]
     return out
 
 
@@ -38,6 +39,13 @@ def build(eng, seq):
         if k.startswith('F'):
             e = sym.symbytes(f"f{i}_", int(k[1:])).e
             isf, pl = False, None
+        elif k == 'M11':
+            # an MSM frame (GPS MSM4) with one satellite and one signal at symbolic mask positions (so reserved IDs are among the cases)
+            from . import h_C09
+            d = h_C09.make_directed("1074", 1, 1, pname=f"m{i}_", spare=0)
+            pay = d.build(eng)
+            crc = sym.symbytes(f"c{i}_", 3)
+            e, isf, pl = [0xD3, d.L >> 8, d.L & 0xFF] + pay.e + crc.e, True, d.L
         elif k == 'R600':
             e, isf, pl = streams.frame_item(eng, i, 600, 4072, filler=True), True, 600
         else:
@@ -288,10 +296,69 @@ def case_static(eng, H, res, why):
                        'other_validate': 1, 'checks': ['same_as', 'total'], 'why': why, 'dedup': f"static:{len(pay)}:{why[:30]}"})
 
 
+def run_two(spec, res):
+    """two readers with different options alive at the same time (both constructed before either is read): each keeps its own options"""
+    from pyrtcm.rtcmreader import RTCMReader
+    _, order = spec
+    eng = sym.Engine(max_paths=64, conc_limit=4)
+    H = {}
+
+    def fn():
+        data, items = build(eng, ('R2', 'R3'))
+        H['data'], H['items'] = data, items
+        rec = rdrdrv.CrcRecorder(rdrdrv.CrcSummary())
+        shims.set_crc(rec)
+        try:
+            sa, sb = shims.SymStream(data), shims.SymStream(data)
+            if order == 0:
+                ra = RTCMReader(sa, validate=0, quitonerror=0, labelmsm=2)
+                rb = RTCMReader(sb, validate=1, quitonerror=0, labelmsm=1, parsed=False)
+            else:
+                rb = RTCMReader(sb, validate=1, quitonerror=0, labelmsm=1, parsed=False)
+                ra = RTCMReader(sa, validate=0, quitonerror=0, labelmsm=2)
+            outa, outb = [], []
+            for _ in range(4):
+                x = ra.read()
+                if x[0] is None:
+                    break
+                outa.append(x)
+            for _ in range(4):
+                x = rb.read()
+                if x[0] is None:
+                    break
+                outb.append(x)
+            return outa, outb
+        finally:
+            shims.set_crc(rec.inner.direct)
+    for path in eng.explore(fn):
+        if path.kind == 'abort':
+            continue
+        res['obligations'] += 1
+        if path.kind != 'ret':
+            res['obligations'] -= 1
+            res['inconclusive' if path.kind != 'exc' else 'harness_errors'].append(f"{spec}: {path.kind} {str(path.value)[:80]}")
+            continue
+        outa, outb = path.value
+        frames = [it for it in H['items'] if it.frame]
+        bad = None
+        # validate=0 reader: both frames whatever their checksum bytes, parsed
+        if len(outa) != len(frames) or not all(sym.same_bytes(list(r), it.elems) and m is not None for (r, m), it in zip(outa, frames)):
+            bad = f"reader built with validate=0 returned {len(outa)} of {len(frames)} frames (another reader with validate=1 exists)"
+        elif any(m is not None for _, m in outb):
+            bad = "reader built with parsed=False returned a parsed object"
+        if bad:
+            res['refuted'] += 1
+            emit(eng, H, res, bad, {'option': 'tworeaders', 'order': order, 'mode': 0})
+        else:
+            res['discharged'] += 1
+        res.count('option_paths')
+    res.absorb_engine(eng)
+
+
 def run_job(spec):
     shims.install()
     res = JobResult(str(spec)[:70])
-    {'validate': run_validate, 'parsed': run_parsed, 'static': run_static}[spec[0]](spec, res)
+    {'validate': run_validate, 'parsed': run_parsed, 'static': run_static, 'tworeaders': run_two}[spec[0]](spec, res)
     res['samples'].append({'job': [str(x) for x in spec], 'paths': res['paths']})
     return res
 
